@@ -360,6 +360,13 @@ func (d *drv) apply(c string, i int, h *hdr, m mut) error {
 		default:
 			return fmt.Errorf("unknown resign %q", m.F)
 		}
+	case "fork":
+		if err := d.applyRaw(h, mut{K: "raw", F: m.F, V: "mut"}); err != nil {
+			return err
+		}
+		h.cBlock.Hash = h.raw.Hash()
+		h.cHeight = h.raw.Height
+		d.signAll(h, func(k int) int { return h.vals[k].id }, d.t2(h))
 	case "forge":
 		fr, ok := d.forges[m.F]
 		if !ok {
